@@ -733,6 +733,102 @@ Proof.
   simpl. apply join1_nodotdot; [apply lstrip47_rel|]. apply has_dotdot_split, has_dotdot_lstrip, E.
 Qed.
 
+(* ------------------------------------------------------------------ ensure_directory / write_atomic / absolute base *)
+Lemma ensure_dir_ops_not_existing isdir perm d o :
+  In o (ensure_dir_ops isdir perm d) -> isdir (fsop_dir o) = false.
+Proof.
+  induction d as [|c parent IH]; [intros []|]. simpl.
+  destruct (isdir (c :: parent)) eqn:E; [intros []|].
+  intro H. apply in_app_or in H as [H|H]; [apply IH; exact H|].
+  destruct H as [<-|H]; [exact E|]. destruct perm; [|contradiction].
+  destruct H as [<-|[]]. exact E.
+Qed.
+
+Lemma ensure_dir_ops_chmod_created isdir perm d x :
+  In (Chmod x) (ensure_dir_ops isdir perm d) -> In (Mkdir x) (ensure_dir_ops isdir perm d).
+Proof.
+  induction d as [|c parent IH]; [intros []|]. simpl.
+  destruct (isdir (c :: parent)); [intros []|].
+  intro H. apply in_or_app. apply in_app_or in H as [H|H]; [left; apply IH; exact H|].
+  right. destruct H as [H|H]; [discriminate|]. destruct perm; [|contradiction].
+  destruct H as [H|[]]. injection H as <-. left. reflexivity.
+Qed.
+
+Lemma ensure_dir_ops_ancestors isdir perm d o :
+  In o (ensure_dir_ops isdir perm d) -> exists below, d = below ++ fsop_dir o.
+Proof.
+  induction d as [|c parent IH]; [intros []|]. simpl.
+  destruct (isdir (c :: parent)); [intros []|].
+  intro H. apply in_app_or in H as [H|H].
+  - destruct (IH H) as [b Hb]. exists (c :: b). rewrite Hb at 1. reflexivity.
+  - destruct H as [<-|H]; [exists []; reflexivity|]. destruct perm; [|contradiction].
+    destruct H as [<-|[]]. exists []. reflexivity.
+Qed.
+
+Lemma ensure_dir_ops_noperm_no_chmod isdir d x : ~ In (Chmod x) (ensure_dir_ops isdir false d).
+Proof.
+  induction d as [|c parent IH]; [intros []|]. simpl.
+  destruct (isdir (c :: parent)); [intros []|].
+  intro H. apply in_app_or in H as [H|H]; [exact (IH H)|]. destruct H as [H|[]]. discriminate.
+Qed.
+
+Lemma tmp_name_safe name r : safe name -> safe (name ++ tmp_suffix r).
+Proof.
+  intros [A [B _]].
+  assert (Hin : In 45 (name ++ tmp_suffix r)).
+  { apply in_or_app. right. unfold tmp_suffix. apply in_or_app. left. simpl. auto 6. }
+  destruct (has_char_not_dots _ 45 ltac:(lia) Hin) as [X [Y Z]].
+  repeat split; try assumption.
+  apply no47_app; [exact B|]. unfold tmp_suffix. apply no47_app; [|apply no47_digitish, dec_str_digitish].
+  simpl. intuition discriminate.
+Qed.
+
+Lemma join1_app_suffix p b sfx : b <> [] -> starts47 b = false -> join1 p b ++ sfx = join1 p (b ++ sfx).
+Proof.
+  intros Hne Hb. unfold join1.
+  assert (S : starts47 (b ++ sfx) = false) by (rewrite starts47_app; assumption).
+  rewrite Hb, S. destruct (is_nil p || ends47 p); rewrite <- app_assoc; reflexivity.
+Qed.
+
+(* the temporary file of write_atomic is a sibling of its target *)
+Lemma write_atomic_tmp_sibling cwd dir name r :
+  safe name ->
+  resolve cwd (join1 dir name ++ tmp_suffix r) = resolve cwd dir ++ [name ++ tmp_suffix r].
+Proof.
+  intro H. rewrite join1_app_suffix; [|destruct H as [A _]; exact A|apply safe_starts47; exact H].
+  change (join1 dir (name ++ tmp_suffix r)) with (posix_join dir [name ++ tmp_suffix r]).
+  apply safe_join_resolves. constructor; [apply tmp_name_safe; exact H|constructor].
+Qed.
+
+Lemma join1_abs a b : starts47 a = true -> starts47 (join1 a b) = true.
+Proof.
+  intro Ha. unfold join1. destruct (starts47 b) eqn:Hb; [exact Hb|].
+  destruct a as [|c r]; [discriminate|].
+  destruct (is_nil (c :: r) || ends47 (c :: r)); exact Ha.
+Qed.
+
+Lemma posix_join_abs ps : forall a, starts47 a = true -> starts47 (posix_join a ps) = true.
+Proof.
+  induction ps as [|b ps IH]; intros a Ha; [exact Ha|]. simpl. apply IH. apply join1_abs. exact Ha.
+Qed.
+
+(* paths built on an absolute base mean the same whatever the working directory is *)
+Lemma absolute_base_cwd_independent base ps c1 c2 :
+  starts47 base = true -> resolve c1 (posix_join base ps) = resolve c2 (posix_join base ps).
+Proof.
+  intro H. unfold resolve, resolve_rev. rewrite (posix_join_abs ps base H). reflexivity.
+Qed.
+
+(* ... and with a relative base they do not: the same configured text names two different directories *)
+Lemma relative_base_follows_cwd :
+  exists base ps c1 c2, resolve c1 (posix_join base ps) <> resolve c2 (posix_join base ps).
+Proof. exists [], [[99]], [[97]], [[98]]. vm_compute. discriminate. Qed.
+
+Example ensure_dir_example :
+  ensure_dir_ops (fun d => Nat.leb (List.length d) 1) true [[99]; [98]; [97]]
+  = [Mkdir [[98]; [97]]; Chmod [[98]; [97]]; Mkdir [[99]; [98]; [97]]; Chmod [[99]; [98]; [97]]].
+Proof. vm_compute. reflexivity. Qed.
+
 (* ------------------------------------------------------------------ non-vacuity *)
 Definition t_time : str := [116; 105; 109; 101].        (* "time" *)
 Definition t_attack : str := [46; 46; 47; 46; 46; 47; 46; 46; 47; 120].   (* "../../../x" *)
